@@ -303,12 +303,15 @@ let run_oracle (file : string) (max_report : int) : unit =
          | 'X' ->
            (match !cfg, !size_before, !cur_op with
             | Some c, Some nb, Some o ->
-              let x = obs_of_string (SS.sub line 2 (n - 2)) in
+              let x = (try obs_of_string (SS.sub line 2 (n - 2)) with Failure _ -> OL []) in
               let is_put = (match o with Put (_, _) -> true | _ -> false) in
               SL.iter (fun code -> fail (z_to_int code) (Printf.sprintf " (calls=%s size-before=%s)" (obs_to_string x) (z_to_string nb)))
                 (Oracle.oracle_cost_op c is_put nb x)
             | _ -> ())
-         | 'V' -> vec := parse_v line :: !vec
+         | 'V' ->
+           (* a component that is not an S-expression of integers is undecodable, not fatal *)
+           (try vec := parse_v line :: !vec
+            with Failure _ -> fail 1 (" (unreadable line: " ^ (if n > 60 then SS.sub line 0 60 ^ "..." else line) ^ ")"))
          | 'E' -> flush_vec ()
          | '#' -> ()
          | _ -> failwith ("bad line " ^ line)
@@ -319,10 +322,25 @@ let run_oracle (file : string) (max_report : int) : unit =
   Printf.printf "S cases=%d vectors=%d failures=%d\n" !cases !vectors !failures
 
 (* ---------- mode 2: Gallina literals for CrossCheck.v ---------- *)
+(* Integers are written through named constants ([z_12], [z_m3] : Z and [o_12], [o_m3] := OZ ..) that
+   the generated file defines once each by a %Z literal: Coq evaluates a number notation at every
+   occurrence of a literal, which would dominate the run time (a trace holds few distinct integers). *)
+let used_ints : (string, unit) Hashtbl.t = Hashtbl.create 1024
+let int_name (z : coq_Z) : string option =
+  let t = z_to_string z in
+  if SS.length t > 15 then None
+  else begin
+    if not (Hashtbl.mem used_ints t) then Hashtbl.add used_ints t ();
+    Some (if t.[0] = '-' then "m" ^ SS.sub t 1 (SS.length t - 1) else t)
+  end
 let gz (b : Buffer.t) (z : coq_Z) : unit =
-  match z with
-  | Zneg _ -> Buffer.add_char b '('; Buffer.add_string b (z_to_string z); Buffer.add_char b ')'
-  | _ -> Buffer.add_string b (z_to_string z)
+  match int_name z with
+  | Some nm -> Buffer.add_string b "z_"; Buffer.add_string b nm
+  | None -> Buffer.add_char b '('; Buffer.add_string b (z_to_string z); Buffer.add_string b ")%Z"
+let goz (b : Buffer.t) (z : coq_Z) : unit =
+  match int_name z with
+  | Some nm -> Buffer.add_string b "o_"; Buffer.add_string b nm
+  | None -> Buffer.add_string b "(OZ ("; Buffer.add_string b (z_to_string z); Buffer.add_string b ")%Z)"
 let glist (b : Buffer.t) (f : Buffer.t -> 'a -> unit) (l : 'a list) : unit =
   Buffer.add_char b '[';
   SL.iteri (fun i x -> if i > 0 then Buffer.add_string b "; "; f b x) l;
@@ -332,7 +350,8 @@ let gpair (b : Buffer.t) ((k, v) : coq_Z * coq_Z) : unit =
   Buffer.add_char b '('; gz b k; Buffer.add_string b ", "; gz b v; Buffer.add_char b ')'
 let rec gobs (b : Buffer.t) (o : obs) : unit =
   match o with
-  | OZ z -> Buffer.add_string b "OZ "; gz b z
+  | OZ z -> goz b z
+  | OL [] -> Buffer.add_string b "o_nil"
   | OL l -> Buffer.add_string b "OL "; glist b gobs l
 let gcmp (b : Buffer.t) (c : Cmp.cmp_id) : unit =
   Buffer.add_string b (match c with Cmp.CNat -> "CNat" | Cmp.CRev -> "CRev" | Cmp.CDiv3 -> "CDiv3" | Cmp.CAbs -> "CAbs")
@@ -391,7 +410,8 @@ let gop (b : Buffer.t) (o : op) : unit =
   | SortedValuesFunc (c, res) -> s "Ops.SortedValuesFunc "; gcmp b c; sp (); gzs b res
 let gvec (b : Buffer.t) (v : (tag * obs) list) : unit =
   glist b (fun b (t, o) -> Buffer.add_char b '('; Buffer.add_string b (tag_ctor t); Buffer.add_string b ", ";
-            gobs b o; Buffer.add_char b ')') v
+            (if o = Machine.all_sane then Buffer.add_string b "Machine.all_sane" else gobs b o);
+            Buffer.add_char b ')') v
 
 type rstep = { s_op : op; mutable s_res : obs; mutable s_extra : obs; mutable s_vec : (tag * obs) list }
 type rcase = { r_cfg : config; r_lvl : coq_Z; mutable r_init : (tag * obs) list; mutable r_steps : rstep list }
@@ -460,17 +480,10 @@ let model_case (rc : rcase) : rcase =
 let emit_coq (file : string) (limit : int) (out : string) (recorded : bool) : unit =
   let cases = read_cases file limit in
   let cases = if recorded then cases else SL.map model_case cases in
-  let oc = open_out out in
-  let b = Buffer.create (1 lsl 20) in
+  let b = Buffer.create (1 lsl 22) in
   let s = Buffer.add_string b in
-  s "(* generated by coq/ocaml/oracle --emit-coq: ";
-  s (if recorded then "values recorded in the trace" else "values computed by the extracted OCaml machine");
-  s " *)\n";
-  s "From Coq Require Import ZArith List.\n";
-  s "From Gods Require Import Common.Cmp Model.Ops Model.Machine Oracle.CrossCheck.\n";
-  s "Import ListNotations.\nLocal Open Scope Z_scope.\n\n";
   SL.iteri (fun i rc ->
-      s (Printf.sprintf "Definition case_%d : CrossCheck.rcase := (\n" i);
+      s (Printf.sprintf "Definition case_%d : CrossCheck.rcase :=\n" i);
       s "  {| r_cfg := {| ckind := "; s (kind_ctor rc.r_cfg.ckind);
       s "; kcmp := "; gcmp b rc.r_cfg.kcmp; s "; vcmp := "; gcmp b rc.r_cfg.vcmp;
       s "; ccap := "; gz b rc.r_cfg.ccap; s "; corder := "; gz b rc.r_cfg.corder;
@@ -482,16 +495,32 @@ let emit_coq (file : string) (limit : int) (out : string) (recorded : bool) : un
           if j > 0 then s ";";
           s "\n       {| s_op := "; gop b st.s_op; s "; s_res := "; gobs b st.s_res;
           s "; s_extra := "; gobs b st.s_extra; s ";\n          s_vec := "; gvec b st.s_vec; s " |}") rc.r_steps;
-      s "] |})%Z.\n";
-      Buffer.output_buffer oc b; Buffer.clear b) cases;
+      s "] |}.\n") cases;
   s "\nDefinition cases : list CrossCheck.rcase := [";
   SL.iteri (fun i _ -> if i > 0 then s "; "; s (Printf.sprintf "case_%d" i)) cases;
   s "].\n";
   s "Definition M := Eval vm_compute in CrossCheck.mismatches cases.\nPrint M.\n";
+  (* header: imports and one definition per distinct integer, each a %Z literal *)
+  let oc = open_out out in
+  let h = Buffer.create 65536 in
+  let hs = Buffer.add_string h in
+  hs "(* generated by coq/ocaml/oracle --emit-coq: ";
+  hs (if recorded then "values recorded in the trace" else "values computed by the extracted OCaml machine");
+  hs " *)\n";
+  hs "From Coq Require Import ZArith List.\n";
+  hs "From Gods Require Import Common.Cmp Model.Ops Model.Machine Oracle.CrossCheck.\n";
+  hs "Import ListNotations.\n\n";
+  hs "Definition o_nil : obs := OL [].\n";
+  let ints = SL.sort compare (Hashtbl.fold (fun t () acc -> int_of_string t :: acc) used_ints []) in
+  SL.iter (fun v ->
+      let nm = if v < 0 then "m" ^ string_of_int (- v) else string_of_int v in
+      hs (Printf.sprintf "Definition z_%s : Z := (%d)%%Z. Definition o_%s : obs := OZ z_%s.\n" nm v nm nm)) ints;
+  hs "\n";
+  Buffer.output_buffer oc h;
   Buffer.output_buffer oc b;
   close_out oc;
-  Printf.printf "emitted cases=%d ops=%d source=%s\n" (SL.length cases)
-    (SL.fold_left (fun a rc -> a + SL.length rc.r_steps) 0 cases) (if recorded then "recorded" else "model")
+  Printf.printf "emitted cases=%d ops=%d integers=%d source=%s\n" (SL.length cases)
+    (SL.fold_left (fun a rc -> a + SL.length rc.r_steps) 0 cases) (SL.length ints) (if recorded then "recorded" else "model")
 
 let () =
   let args = SL.tl (Array.to_list Sys.argv) in
